@@ -349,7 +349,7 @@ func (w *Reconciler) syncCreateTasks(
 
 	// Cannot create any tasks.
 	if !canCreateTask(rj) {
-		return rj, tasks, nil
+		return w.syncAdoptUnlistedTasks(rj, tasks)
 	}
 
 	// Compute task refs first to get true completion status.
@@ -361,7 +361,7 @@ func (w *Reconciler) syncCreateTasks(
 
 	// If already complete, don't need to create any more tasks.
 	if completion.Complete {
-		return rj, tasks, nil
+		return w.syncAdoptUnlistedTasks(rj, tasks)
 	}
 
 	// Compute indexes that need to be created.
@@ -490,6 +490,54 @@ func (w *Reconciler) syncCreateTask(
 	}
 
 	return rj, tasks, nil
+}
+
+// syncAdoptUnlistedTasks adopts all tasks controlled by the Job that are not yet
+// in the given list of tasks.
+//
+// Tasks created by an earlier sync whose status update was lost are normally
+// adopted when their creation is retried. Once no more tasks will be created
+// (the Job is being killed, has an admission error or is already complete) that
+// no longer happens, so they are adopted here to ensure that they are recorded
+// and cleaned up.
+func (w *Reconciler) syncAdoptUnlistedTasks(
+	rj *execution.Job,
+	tasks []jobtasks.Task,
+) (*execution.Job, []jobtasks.Task, error) {
+	taskMgr, err := w.tasks.ForJob(rj)
+	if err != nil {
+		return rj, tasks, errors.Wrapf(err, "cannot get task manager")
+	}
+	tasks, err = adoptUnlistedTasks(rj, taskMgr.Lister(), tasks)
+	if err != nil {
+		return rj, tasks, errors.Wrapf(err, "cannot adopt unlisted tasks")
+	}
+	return rj, tasks, nil
+}
+
+// adoptUnlistedTasks appends all tasks controlled by the Job that are not yet in
+// the given list of tasks.
+func adoptUnlistedTasks(rj *execution.Job, lister jobtasks.TaskLister, tasks []jobtasks.Task) ([]jobtasks.Task, error) {
+	allTasks, err := lister.List()
+	if err != nil {
+		return tasks, err
+	}
+	listed := sets.NewString()
+	for _, task := range tasks {
+		listed.Insert(task.GetName())
+	}
+	for _, task := range allTasks {
+		if listed.Has(task.GetName()) {
+			continue
+		}
+		for _, ref := range task.GetOwnerReferences() {
+			if ref.Controller != nil && *ref.Controller && ref.Kind == execution.KindJob && ref.UID == rj.UID {
+				tasks = append(tasks, task)
+				break
+			}
+		}
+	}
+	return tasks, nil
 }
 
 func (w *Reconciler) getTaskForAdoption(rj *execution.Job, name string) (jobtasks.Task, error) {
